@@ -1440,7 +1440,33 @@ pub fn gen_avg(rng: &mut Rng) -> AvgCase {
         regions.push((c, s, e.min(200_000_000.max(s + 1)), format!("r{}", k)));
     }
     // keep values-over-bed arrays small
-    let mode = rng.pick(&["tool", "tool", "lib", "values"]).to_string();
+    let mut mode = rng.pick(&["tool", "tool", "lib", "values"]).to_string();
+    let mut heavy_threads = None;
+    if rng.chance(1, 80) {
+        // heavy uncontrolled class: many blocks, thousands of regions, many real worker threads - the only way a
+        // race between the reopened readers of the thread pool can show (oracle: equality with -t 1)
+        mode = "tool".to_string();
+        file.opts.items_per_slot = 2;
+        file.opts.block_size = 4;
+        let c = 0usize;
+        let mut items = vec![];
+        let mut pos = 0u32;
+        for k in 0..6000u32 {
+            pos += 1 + rng.below(3) as u32;
+            let len = 1 + rng.below(5) as u32;
+            items.push(Item::wig(pos, pos + len, (k % 50) as f32 + 0.5));
+            pos += len;
+        }
+        file.chroms[c].len = pos + 100;
+        file.chroms[c].items = items;
+        regions.clear();
+        for k in 0..4000 {
+            let s = rng.below(pos as u64 - 50) as u32;
+            let e = s + 1 + rng.below(40) as u32;
+            regions.push((c, s, e, format!("h{}", k)));
+        }
+        heavy_threads = Some(*rng.pick(&[4u8, 8, 16]));
+    }
     if mode == "values" {
         for r in &mut regions {
             r.2 = r.2.min(r.1 + 3000);
@@ -1451,7 +1477,7 @@ pub fn gen_avg(rng: &mut Rng) -> AvgCase {
         regions,
         namecol: rng.pick(&["default", "interval", "none", "4", "1", "2", "3"]).to_string(),
         min_max: rng.chance(1, 2),
-        nthreads: *rng.pick(&[1u8, 1, 2, 3, 4, 8, 16]),
+        nthreads: heavy_threads.unwrap_or(*rng.pick(&[1u8, 1, 2, 3, 4, 8, 16])),
         mode,
         read: if rng.chance(1, 2) {
             ReadFaults {
